@@ -583,6 +583,9 @@ class Fn:
             return self._beta(src[2][1], [], depth)
         if name == 'std::option::Option::map' and len(src[2]) == 2:
             return self._beta(src[2][1], [('field', ('as', src[2][0], 'Some'), '0', 'std::option::Option')], depth)
+        if name == 'std::option::Option::filter' and len(src[2]) == 2:
+            # x.filter(p) is Some(v) only for x = Some(v)
+            return ('field', ('as', src[2][0], 'Some'), '0', 'std::option::Option')
         return None
 
     def _beta(self, clo, args, depth):
@@ -1107,7 +1110,7 @@ def canon(t):
             return ('bin', m.group(2), canon(t[2][0]), canon(t[2][1]))
         return ('call', t[1], tuple(canon(x) for x in t[2]))
     if k == 'arg':
-        return ('arg', t[2])
+        return ('arg', t[2]) if len(t) > 2 else t     # idempotent
     if k == 'field':
         return ('field', canon(t[1]), t[2])
     if k == 'bin':
@@ -1115,6 +1118,8 @@ def canon(t):
     if k == 'un':
         return ('un', t[1], canon(t[2]))
     if k == 'cast':
+        if len(t) == 3:
+            return ('cast', canon(t[1]), t[2])     # already canonical
         return ('cast', canon(t[2]), t[3])
     if k == 'index':
         return ('index', canon(t[1]), canon(t[2]))
